@@ -1,3 +1,6 @@
 #!/bin/bash
 # re-confirms every stored seeded change against the current tree and re-runs the property's own check against it
-for d in /verif/seeded/*/; do n=$(basename $d); [ -f $d/patch.diff ] || continue; pid=${n%-*}; var=${n#*-}; /venv/bin/python /verif/tools/import_seeded.py $pid $var 2>&1 | tail -1; done
+# usage: regress_seeded.sh [ID ...]   (default: all)
+for d in /verif/seeded/*/; do n=$(basename $d); [ -f $d/patch.diff ] || continue; pid=${n%-*}; var=${n#*-}
+  if [ $# -gt 0 ]; then case " $* " in *" $pid "*) ;; *) continue;; esac; fi
+  /venv/bin/python /verif/tools/import_seeded.py $pid $var 2>&1 | tail -1; done
